@@ -222,4 +222,395 @@ theorem attempts_bounds (c : Cfg) (s : Nat → Ev) (i k : Nat) (last : Out) :
       (by simp [h1, afterFault_nw]) (by simpa [afterFault_nr] using pr)
       (by have := afterFault_time c i true; rw [elapsedOf_append, nReads_append, afterFault_nr, Nat.add_zero]; omega) ih
 
+/-! ### soundness with respect to the specification -/
+
+/-- the limits the specification is instantiated with -/
+def bounds (c : Cfg) : Bounds := ⟨c.lim.maxPending, maxNT c⟩
+
+theorem attempts_done (c : Cfg) (s : Nat → Ev) (i k : Nat) (last : Out) (h : c.maxRetry < i) :
+    attempts c s i k last = (last, []) := by
+  rw [attempts]; simp [h]
+
+theorem pend_sound (c : Cfg) (s : Nat → Ev) (k np nt : Nat) (b : Nat) (o : Out)
+    (h : match (pendingLoop c s k np nt).1 with
+      | .done o' => o = o'
+      | .silence k' => (b = 0 ∧ o = .missing false) ∨ (∃ b', b = b' + 1 ∧ Implied (bounds c) s .wait b' k' o)
+      | .lost k' => (b = 0 ∧ o = .missing true) ∨ (∃ b', b = b' + 1 ∧ Implied (bounds c) s .wait b' k' o)) :
+    Implied (bounds c) s (.pend np nt) b k o := by
+  fun_induction pendingLoop c s k np nt with
+  | case1 k np nt hk hl =>
+    rcases h with ⟨rfl, rfl⟩ | ⟨b', rfl, hi⟩
+    · exact .silenceLast hk hl
+    · exact .silenceRetry hk hl hi
+  | case2 k np nt hk hl ih => exact .quiet hk (by simp [bounds]; omega) (ih h)
+  | case3 k np nt hk =>
+    rcases h with ⟨rfl, rfl⟩ | ⟨b', rfl, hi⟩
+    · exact .lostLast (by simp [hk, Ev.lost])
+    · exact .lostRetry (by simp [hk, Ev.lost]) hi
+  | case4 k np nt hk =>
+    rcases h with ⟨rfl, rfl⟩ | ⟨b', rfl, hi⟩
+    · exact .lostLast (by simp [hk, Ev.lost])
+    · exact .lostRetry (by simp [hk, Ev.lost]) hi
+  | case5 k np nt hk => subst h; exact .illegal (by simp [hk, Ev.illegal])
+  | case6 k np nt hk => subst h; exact .illegal (by simp [hk, Ev.illegal])
+  | case7 k np nt hk hl => subst h; exact .pendStuck hk hl
+  | case8 k np nt hk hl ih => exact .pendAgain hk (by simp [bounds]; omega) (ih h)
+  | case9 k np nt hk => subst h; exact .busyAfterPending hk
+  | case10 k np nt hk => subst h; exact .final (by simp [hk, Ev.final])
+  | case11 k np nt hk => subst h; exact .final (by simp [hk, Ev.final])
+
+theorem attempts_sound (c : Cfg) (s : Nat → Ev) (i k : Nat) (last : Out) (hi : i ≤ c.maxRetry) :
+    Implied (bounds c) s .wait (c.maxRetry - i) k (attempts c s i k last).1 := by
+  fun_induction attempts c s i k last with
+  | case1 i k last h => omega
+  | case2 i k _ _ hk ih =>
+    by_cases hl : i < c.maxRetry
+    · have : c.maxRetry - i = (c.maxRetry - (i+1)) + 1 := by omega
+      rw [this]; exact .silentRetry hk (ih (by omega))
+    · have : c.maxRetry - i = 0 := by omega
+      rw [this, attempts_done c s (i+1) (k+1) _ (by omega)]; exact .silentLast hk
+  | case3 i k _ _ hk ih =>
+    by_cases hl : i < c.maxRetry
+    · have : c.maxRetry - i = (c.maxRetry - (i+1)) + 1 := by omega
+      rw [this]; exact .lostRetry (by simp [hk, Ev.lost]) (ih (by omega))
+    · have : c.maxRetry - i = 0 := by omega
+      rw [this, attempts_done c s (i+1) (k+1) _ (by omega)]; exact .lostLast (by simp [hk, Ev.lost])
+  | case4 i k _ _ hk ih =>
+    by_cases hl : i < c.maxRetry
+    · have : c.maxRetry - i = (c.maxRetry - (i+1)) + 1 := by omega
+      rw [this]; exact .lostRetry (by simp [hk, Ev.lost]) (ih (by omega))
+    · have : c.maxRetry - i = 0 := by omega
+      rw [this, attempts_done c s (i+1) (k+1) _ (by omega)]; exact .lostLast (by simp [hk, Ev.lost])
+  | case5 i k _ _ hk hl =>
+    have : c.maxRetry - i = 0 := by omega
+    rw [this]; exact .busyLast hk
+  | case6 i k last _ hk hl ih =>
+    have : c.maxRetry - i = (c.maxRetry - (i+1)) + 1 := by omega
+    rw [this]; exact .busyRetry hk (ih (by omega))
+  | case7 i k _ _ hk => exact .illegal (by simp [hk, Ev.illegal])
+  | case8 i k _ _ hk => exact .illegal (by simp [hk, Ev.illegal])
+  | case9 i k _ _ hk => exact .final (by simp [hk, Ev.final])
+  | case10 i k _ _ hk => exact .final (by simp [hk, Ev.final])
+  | case11 i k _ _ hk o t hp =>
+    exact .pendFirst hk (pend_sound c s (k+1) 1 0 _ _ (by rw [hp]))
+  | case12 i k _ _ hk k' t hp ih =>
+    refine .pendFirst hk (pend_sound c s (k+1) 1 0 _ _ ?_)
+    rw [hp]; simp only [pre]
+    by_cases hl : i < c.maxRetry
+    · exact .inr ⟨c.maxRetry - (i+1), by omega, ih (by omega)⟩
+    · rw [attempts_done c s (i+1) k' _ (by omega)]; exact .inl ⟨by omega, rfl⟩
+  | case13 i k _ _ hk k' t hp ih =>
+    refine .pendFirst hk (pend_sound c s (k+1) 1 0 _ _ ?_)
+    rw [hp]; simp only [pre]
+    by_cases hl : i < c.maxRetry
+    · exact .inr ⟨c.maxRetry - (i+1), by omega, ih (by omega)⟩
+    · rw [attempts_done c s (i+1) k' _ (by omega)]; exact .inl ⟨by omega, rfl⟩
+
+/-! ### no reply is dropped -/
+
+theorem pend_first (c : Cfg) (s : Nat → Ev) (k np nt : Nat) (j : Nat) (hj : k ≤ j)
+    (hj' : j < k + nReads (pendingLoop c s k np nt).2) :
+    ((s j).final = true → (pendingLoop c s k np nt).1 = .done (.reply j)) ∧
+    ((s j).illegal = true → (pendingLoop c s k np nt).1 = .done (.illegal j)) := by
+  fun_induction pendingLoop c s k np nt with
+  | case2 k np nt hk hl ih =>
+    simp only [consOp, nReads_cons, isRd_rd, if_true] at hj' ⊢
+    by_cases hjk : j = k
+    · subst hjk; simp [hk, Ev.final, Ev.illegal]
+    · exact ih (by omega) (by omega)
+  | case8 k np nt hk hl ih =>
+    simp only [consOp, nReads_cons, isRd_rd, if_true] at hj' ⊢
+    by_cases hjk : j = k
+    · subst hjk; simp [hk, Ev.final, Ev.illegal]
+    · exact ih (by omega) (by omega)
+  | _ =>
+    simp at hj'
+    have hjk := Nat.le_antisymm (Nat.lt_succ_iff.mp hj') hj
+    subst hjk; simp_all [Ev.final, Ev.illegal]
+
+/-- no reply that was read is dropped: among the reads `k ≤ j < k + reads` of the attempt loop, a final reply
+    is the one returned and an illegal reply is the one reported -/
+theorem attempts_first (c : Cfg) (s : Nat → Ev) (i k : Nat) (last : Out) (j : Nat) (hj : k ≤ j)
+    (hj' : j < k + nReads (attempts c s i k last).2) :
+    ((s j).final = true → (attempts c s i k last).1 = .reply j) ∧
+    ((s j).illegal = true → (attempts c s i k last).1 = .illegal j) := by
+  fun_induction attempts c s i k last with
+  | case1 => simp at hj'; omega
+  | case2 i k _ _ hk ih =>
+    simp only [pre, nReads_append, nReads_cons, isRd_rd, isRd_wr, afterFault_nr, if_true] at hj' ⊢
+    by_cases hjk : j = k
+    · subst hjk; simp [hk, Ev.final, Ev.illegal]
+    · exact ih (by omega) (by simp at hj'; omega)
+  | case3 i k _ _ hk ih =>
+    simp only [pre, nReads_append, nReads_cons, isRd_rd, isRd_wr, afterFault_nr, if_true] at hj' ⊢
+    by_cases hjk : j = k
+    · subst hjk; simp [hk, Ev.final, Ev.illegal]
+    · exact ih (by omega) (by simp at hj'; omega)
+  | case4 i k _ _ hk ih =>
+    simp only [pre, nReads_append, nReads_cons, isRd_rd, isRd_wr, afterFault_nr, if_true] at hj' ⊢
+    by_cases hjk : j = k
+    · subst hjk; simp [hk, Ev.final, Ev.illegal]
+    · exact ih (by omega) (by simp at hj'; omega)
+  | case6 i k last _ hk hl ih =>
+    simp only [pre, nReads_append, nReads_cons, isRd_rd, isRd_wr, isRd_sl, if_true] at hj' ⊢
+    by_cases hjk : j = k
+    · subst hjk; simp [hk, Ev.final, Ev.illegal]
+    · exact ih (by omega) (by simp at hj'; omega)
+  | case11 i k _ _ hk o t hp =>
+    have pf := pend_first c s (k+1) 1 0 j
+    rw [hp] at pf
+    simp only [nReads_cons, isRd_rd, isRd_wr, if_true] at hj' pf ⊢
+    by_cases hjk : j = k
+    · subst hjk; simp [hk, Ev.final, Ev.illegal]
+    · have := pf (by omega) (by simp at hj'; omega)
+      simpa using this
+  | case12 i k _ _ hk k' t hp ih =>
+    have pf := pend_first c s (k+1) 1 0 j
+    have pn := (pend_facts c s (k+1) 1 0).next
+    rw [hp] at pf pn
+    simp only [pre, nReads_append, nReads_cons, isRd_rd, isRd_wr, if_true] at hj' pf pn ⊢
+    by_cases hjk : j = k
+    · subst hjk; simp [hk, Ev.final, Ev.illegal]
+    · by_cases hjt : j < k + 1 + nReads t
+      · have := pf (by omega) hjt
+        simp at this
+        exact ⟨fun h => absurd h (by simpa using this.1), fun h => absurd h (by simpa using this.2)⟩
+      · exact ih (by omega) (by simp at hj'; omega)
+  | case13 i k _ _ hk k' t hp ih =>
+    have pf := pend_first c s (k+1) 1 0 j
+    have pn := (pend_facts c s (k+1) 1 0).next
+    rw [hp] at pf pn
+    simp only [pre, nReads_append, nReads_cons, isRd_rd, isRd_wr, afterFault_nr, if_true] at hj' pf pn ⊢
+    by_cases hjk : j = k
+    · subst hjk; simp [hk, Ev.final, Ev.illegal]
+    · by_cases hjt : j < k + 1 + nReads t
+      · have := pf (by omega) hjt
+        simp at this
+        exact ⟨fun h => absurd h (by simpa using this.1), fun h => absurd h (by simpa using this.2)⟩
+      · exact ih (by omega) (by simp at hj'; omega)
+  | _ =>
+    simp at hj'
+    have hjk := Nat.le_antisymm (Nat.lt_succ_iff.mp hj') hj
+    subst hjk; simp_all [Ev.final, Ev.illegal]
+
+/-! ### backoff; `last_exception` -/
+
+theorem afterFault_sleeps (c : Cfg) (i : Nat) (b : Bool) :
+    sleepsOf (afterFault c i b) = if i < c.maxRetry then [wait c i] else [] := by
+  unfold afterFault; cases b <;> split <;> simp
+
+/-- backoff sleeps of the attempts `i, i+1, …`: a sublist (same order) of `wait i, wait (i+1), …, wait (maxRetry-1)` -/
+theorem attempts_sleeps (c : Cfg) (s : Nat → Ev) (i k : Nat) (last : Out) :
+    (sleepsOf (attempts c s i k last).2).Sublist ((List.range' i (c.maxRetry - i)).map (wait c)) := by
+  fun_induction attempts c s i k last with
+  | case1 => simp
+  | case2 i k _ _ hk ih =>
+    simp only [pre, sleepsOf_append, sleepsOf_wr, sleepsOf_rd, List.cons_append, afterFault_sleeps]
+    by_cases hl : i < c.maxRetry
+    · have : c.maxRetry - i = (c.maxRetry - (i+1)) + 1 := by omega
+      rw [this, List.range'_succ]; simpa [hl] using ih
+    · rw [attempts_done c s (i+1) (k+1) _ (by omega)]; simp [hl]
+  | case3 i k _ _ hk ih =>
+    simp only [pre, sleepsOf_append, sleepsOf_wr, sleepsOf_rd, List.cons_append, afterFault_sleeps]
+    by_cases hl : i < c.maxRetry
+    · have : c.maxRetry - i = (c.maxRetry - (i+1)) + 1 := by omega
+      rw [this, List.range'_succ]; simpa [hl] using ih
+    · rw [attempts_done c s (i+1) (k+1) _ (by omega)]; simp [hl]
+  | case4 i k _ _ hk ih =>
+    simp only [pre, sleepsOf_append, sleepsOf_wr, sleepsOf_rd, List.cons_append, afterFault_sleeps]
+    by_cases hl : i < c.maxRetry
+    · have : c.maxRetry - i = (c.maxRetry - (i+1)) + 1 := by omega
+      rw [this, List.range'_succ]; simpa [hl] using ih
+    · rw [attempts_done c s (i+1) (k+1) _ (by omega)]; simp [hl]
+  | case6 i k last _ hk hl ih =>
+    have : c.maxRetry - i = (c.maxRetry - (i+1)) + 1 := by omega
+    rw [this, List.range'_succ]; simpa [pre] using ih
+  | case11 i k _ _ hk o t hp =>
+    have pf := (pend_facts c s (k+1) 1 0).sl
+    rw [hp] at pf; simp at pf
+    simp [pf]
+  | case12 i k _ hi hk k' t hp ih =>
+    have pf := (pend_facts c s (k+1) 1 0).sl
+    rw [hp] at pf; simp at pf
+    simp only [pre, sleepsOf_append, sleepsOf_wr, sleepsOf_rd, List.cons_append, pf, List.nil_append]
+    by_cases hl : i < c.maxRetry
+    · have : c.maxRetry - i = (c.maxRetry - (i+1)) + 1 := by omega
+      rw [this, List.range'_succ, List.map_cons]; exact List.Sublist.cons _ ih
+    · rw [attempts_done c s (i+1) k' _ (by omega)]; simp
+  | case13 i k _ hi hk k' t hp ih =>
+    have pf := (pend_facts c s (k+1) 1 0).sl
+    rw [hp] at pf; simp at pf
+    simp only [pre, sleepsOf_append, sleepsOf_wr, sleepsOf_rd, List.cons_append, pf, List.nil_append, afterFault_sleeps]
+    by_cases hl : i < c.maxRetry
+    · have : c.maxRetry - i = (c.maxRetry - (i+1)) + 1 := by omega
+      rw [this, List.range'_succ]; simpa [hl] using ih
+    · rw [attempts_done c s (i+1) k' _ (by omega)]; simp [hl]
+  | _ => simp
+
+/-- the value of `last_exception` before the loop is irrelevant: the exception raised stems from the last attempt -/
+theorem attempts_last_irrelevant (c : Cfg) (s : Nat → Ev) (i k : Nat) (l₁ l₂ : Out) (hi : i ≤ c.maxRetry) :
+    attempts c s i k l₁ = attempts c s i k l₂ := by
+  fun_induction attempts c s i k l₁ generalizing l₂ with
+  | case1 => omega
+  | case6 i k last _ hk hl ih =>
+    rw [attempts.eq_def c s i k l₂]; simp only [hk]; simp [hl, ih l₂ (by omega)]; omega
+  | _ => rw [attempts.eq_def _ _ _ _ l₂]; simp_all <;> (intro h; omega)
+
+/-! ### transmissions = 1 + retry-worthy events -/
+
+/-- phase reached after the `n` reads `k, …, k+n-1` -/
+def phaseAfter (B : Bounds) (s : Nat → Ev) : Phase → Nat → Nat → Phase
+  | ph, _, 0 => ph
+  | ph, k, n+1 => phaseAfter B s (stepPhase B ph (s k)).1 (k+1) n
+
+theorem retryEventsFrom_add (B : Bounds) (s : Nat → Ev) (ph : Phase) (k n m : Nat) :
+    retryEventsFrom B s ph k (n + m) =
+      retryEventsFrom B s ph k n + retryEventsFrom B s (phaseAfter B s ph k n) (k + n) m := by
+  induction n generalizing ph k with
+  | zero => simp [retryEventsFrom, phaseAfter]
+  | succ n ih =>
+    rw [show n + 1 + m = (n + m) + 1 by omega]
+    simp only [retryEventsFrom, phaseAfter, ih]
+    rw [show k + 1 + n = k + (n + 1) by omega]
+    omega
+
+theorem pend_events (c : Cfg) (s : Nat → Ev) (k np nt : Nat) :
+    (∀ o, (pendingLoop c s k np nt).1 = .done o →
+        retryEventsFrom (bounds c) s (.pend np nt) k (nReads (pendingLoop c s k np nt).2) = 0) ∧
+    ((∀ o, (pendingLoop c s k np nt).1 ≠ .done o) →
+        retryEventsFrom (bounds c) s (.pend np nt) k (nReads (pendingLoop c s k np nt).2) = 1 ∧
+        phaseAfter (bounds c) s (.pend np nt) k (nReads (pendingLoop c s k np nt).2) = .wait) := by
+  fun_induction pendingLoop c s k np nt with
+  | case2 k np nt hk hl ih =>
+    have hl' : ¬ (bounds c).maxSilent ≤ nt + 1 := by simpa [bounds] using hl
+    simpa [consOp, Nat.add_comm 1, retryEventsFrom, phaseAfter, stepPhase, hk, hl'] using ih
+  | case8 k np nt hk hl ih =>
+    simpa [consOp, Nat.add_comm 1, retryEventsFrom, phaseAfter, stepPhase, hk] using ih
+  | case1 k np nt hk hl =>
+    have hl' : (bounds c).maxSilent ≤ nt + 1 := by simpa [bounds] using hl
+    simp [retryEventsFrom, phaseAfter, stepPhase, hk, hl']
+  | _ => simp_all [retryEventsFrom, phaseAfter, stepPhase]
+
+set_option linter.unusedSimpArgs false in
+theorem attempts_writes_eq (c : Cfg) (s : Nat → Ev) (i k : Nat) (last : Out) (hi : i ≤ c.maxRetry) :
+    nWrites (attempts c s i k last).2 =
+      min (1 + retryEventsFrom (bounds c) s .wait k (nReads (attempts c s i k last).2)) (c.maxRetry + 1 - i) := by
+  fun_induction attempts c s i k last with
+  | case1 => omega
+  | case2 i k _ _ hk ih =>
+    simp only [pre, nWrites_append, nWrites_cons, nReads_append, nReads_cons, afterFault_nw, afterFault_nr,
+      isWr_wr, isWr_rd, isWr_sl, isRd_wr, isRd_rd, isRd_sl, if_true, Bool.false_eq_true, if_false, Nat.zero_add, Nat.add_zero,
+      nWrites_nil, nReads_nil]
+    rw [Nat.add_comm 1 (nReads _)]
+    simp only [retryEventsFrom, stepPhase, hk, if_true]
+    by_cases hl : i < c.maxRetry
+    · have := ih (by omega); omega
+    · rw [attempts_done c s (i+1) (k+1) _ (by omega)]; simp [retryEventsFrom]; omega
+  | case3 i k _ _ hk ih =>
+    simp only [pre, nWrites_append, nWrites_cons, nReads_append, nReads_cons, afterFault_nw, afterFault_nr,
+      isWr_wr, isWr_rd, isWr_sl, isRd_wr, isRd_rd, isRd_sl, if_true, Bool.false_eq_true, if_false, Nat.zero_add, Nat.add_zero,
+      nWrites_nil, nReads_nil]
+    rw [Nat.add_comm 1 (nReads _)]
+    simp only [retryEventsFrom, stepPhase, hk, if_true]
+    by_cases hl : i < c.maxRetry
+    · have := ih (by omega); omega
+    · rw [attempts_done c s (i+1) (k+1) _ (by omega)]; simp [retryEventsFrom]; omega
+  | case4 i k _ _ hk ih =>
+    simp only [pre, nWrites_append, nWrites_cons, nReads_append, nReads_cons, afterFault_nw, afterFault_nr,
+      isWr_wr, isWr_rd, isWr_sl, isRd_wr, isRd_rd, isRd_sl, if_true, Bool.false_eq_true, if_false, Nat.zero_add, Nat.add_zero,
+      nWrites_nil, nReads_nil]
+    rw [Nat.add_comm 1 (nReads _)]
+    simp only [retryEventsFrom, stepPhase, hk, if_true]
+    by_cases hl : i < c.maxRetry
+    · have := ih (by omega); omega
+    · rw [attempts_done c s (i+1) (k+1) _ (by omega)]; simp [retryEventsFrom]; omega
+  | case5 i k _ _ hk hl =>
+    simp [retryEventsFrom, stepPhase, hk]; omega
+  | case6 i k last _ hk hl ih =>
+    simp only [pre, nWrites_append, nWrites_cons, nReads_append, nReads_cons, afterFault_nw, afterFault_nr,
+      isWr_wr, isWr_rd, isWr_sl, isRd_wr, isRd_rd, isRd_sl, if_true, Bool.false_eq_true, if_false, Nat.zero_add, Nat.add_zero,
+      nWrites_nil, nReads_nil]
+    rw [Nat.add_comm 1 (nReads _)]
+    simp only [retryEventsFrom, stepPhase, hk, if_true]
+    have := ih (by omega); omega
+  | case7 i k _ _ hk =>
+    simp [retryEventsFrom, stepPhase, hk]; omega
+  | case8 i k _ _ hk =>
+    simp [retryEventsFrom, stepPhase, hk]; omega
+  | case9 i k _ _ hk =>
+    simp [retryEventsFrom, stepPhase, hk]; omega
+  | case10 i k _ _ hk =>
+    simp [retryEventsFrom, stepPhase, hk]; omega
+  | case11 i k _ _ hk o t hp =>
+    have pe := (pend_events c s (k+1) 1 0).1 o (by rw [hp])
+    rw [hp] at pe
+    simp only [pre, nWrites_append, nWrites_cons, nReads_append, nReads_cons, afterFault_nw, afterFault_nr,
+      isWr_wr, isWr_rd, isWr_sl, isRd_wr, isRd_rd, isRd_sl, if_true, Bool.false_eq_true, if_false, Nat.zero_add, Nat.add_zero,
+      nWrites_nil, nReads_nil]
+    rw [Nat.add_comm 1 (nReads _)]
+    have pw := (pend_facts c s (k+1) 1 0).nw
+    rw [hp] at pw
+    simp only at pe pw
+    simp only [retryEventsFrom, stepPhase, hk, pe, pw]
+    simp; omega
+  | case12 i k _ _ hk k' t hp ih =>
+    have pe := (pend_events c s (k+1) 1 0).2 (by rw [hp]; simp)
+    have pf := pend_facts c s (k+1) 1 0
+    rw [hp] at pe pf
+    have pw := pf.nw; have pn := pf.next
+    simp only at pe pw pn
+    simp only [pre, nWrites_append, nWrites_cons, nReads_append, nReads_cons, afterFault_nw, afterFault_nr,
+      isWr_wr, isWr_rd, isWr_sl, isRd_wr, isRd_rd, isRd_sl, if_true, Bool.false_eq_true, if_false, Nat.zero_add, Nat.add_zero,
+      nWrites_nil, nReads_nil]
+    rw [Nat.add_assoc 1 (nReads t), Nat.add_comm 1 (nReads t + _)]
+    simp only [retryEventsFrom, stepPhase, hk, retryEventsFrom_add, pe.1, pe.2, pw, ← pn]
+    by_cases hl : i < c.maxRetry
+    · have := ih (by omega); simp at this ⊢; omega
+    · rw [attempts_done c s (i+1) k' _ (by omega)]; simp [retryEventsFrom]; omega
+  | case13 i k _ _ hk k' t hp ih =>
+    have pe := (pend_events c s (k+1) 1 0).2 (by rw [hp]; simp)
+    have pf := pend_facts c s (k+1) 1 0
+    rw [hp] at pe pf
+    have pw := pf.nw; have pn := pf.next
+    simp only at pe pw pn
+    simp only [pre, nWrites_append, nWrites_cons, nReads_append, nReads_cons, afterFault_nw, afterFault_nr,
+      isWr_wr, isWr_rd, isWr_sl, isRd_wr, isRd_rd, isRd_sl, if_true, Bool.false_eq_true, if_false, Nat.zero_add, Nat.add_zero,
+      nWrites_nil, nReads_nil]
+    rw [Nat.add_assoc 1 (nReads t), Nat.add_comm 1 (nReads t + _)]
+    simp only [retryEventsFrom, stepPhase, hk, retryEventsFrom_add, pe.1, pe.2, pw, ← pn]
+    by_cases hl : i < c.maxRetry
+    · have := ih (by omega); simp at this ⊢; omega
+    · rw [attempts_done c s (i+1) k' _ (by omega)]; simp [retryEventsFrom]; omega
+
+/-! ### the specification determines the outcome -/
+
+theorem final_eq {e : Ev} : e.final = true ↔ e = .negFinal ∨ e = .posFinal := by cases e <;> simp [Ev.final]
+theorem illegal_eq {e : Ev} : e.illegal = true ↔ e = .mismatch ∨ e = .malformed := by cases e <;> simp [Ev.illegal]
+theorem lost_eq {e : Ev} : e.lost = true ↔ e = .connErr ∨ e = .empty := by cases e <;> simp [Ev.lost]
+
+set_option linter.unusedSimpArgs false in
+/-- closes a goal whose hypotheses say contradictory things about one event (or about the limits) -/
+macro "ev_contra" : tactic => `(tactic| ((try simp only [final_eq, illegal_eq, lost_eq] at *) <;> grind))
+
+set_option linter.unusedSimpArgs false in
+/-- the specification is deterministic: an event sequence implies at most one outcome -/
+theorem implied_unique {B : Bounds} {s : Nat → Ev} {ph : Phase} {b k : Nat} {o₁ o₂ : Out}
+    (h1 : Implied B s ph b k o₁) (h2 : Implied B s ph b k o₂) : o₁ = o₂ := by
+  induction h1 generalizing o₂ with
+  | final hf => cases h2 <;> ev_contra
+  | illegal hf => cases h2 <;> ev_contra
+  | busyRetry hk _ ih => cases h2 <;> first | exact ih ‹_› | ev_contra
+  | busyLast hk => cases h2 <;> ev_contra
+  | busyAfterPending hk => cases h2 <;> ev_contra
+  | silentRetry hk _ ih => cases h2 <;> first | exact ih ‹_› | ev_contra
+  | silentLast hk => cases h2 <;> ev_contra
+  | lostRetry hk _ ih => cases h2 <;> first | exact ih ‹_› | ev_contra
+  | lostLast hk => cases h2 <;> ev_contra
+  | pendFirst hk _ ih => cases h2 <;> first | exact ih ‹_› | ev_contra
+  | pendAgain hk hl _ ih => cases h2 <;> first | exact ih ‹_› | ev_contra
+  | pendStuck hk hl => cases h2 <;> first | ev_contra
+  | quiet hk hl _ ih => cases h2 <;> first | exact ih ‹_› | ev_contra
+  | silenceRetry hk hl _ ih => cases h2 <;> first | exact ih ‹_› | ev_contra
+  | silenceLast hk hl => cases h2 <;> first | ev_contra
+
 end Gallia.Client
